@@ -528,6 +528,14 @@ func (s *Sim) genTx0() *TxSpec {
 			base.Note = "bad-nonce-low"
 		case 2:
 			base.GasPrice = fmt.Sprint(num(base.GasPrice) + 1)
+			switch r.Intn(3) {
+			case 0:
+				base.GasPrice = fmt.Sprint(num(base.GasPrice) * 3)
+			case 1:
+				if p := num(base.GasPrice); p > 2 {
+					base.GasPrice = fmt.Sprint(p - 2)
+				}
+			}
 			base.Note = "bad-gasprice"
 		case 3:
 			base.Gas = s.params.MinTrxGas - 1
@@ -974,6 +982,10 @@ func (s *Sim) genEvmTx(deploy bool) *TxSpec {
 		t.Amount = fmt.Sprint(100 + r.Intn(900))
 		t.Gas = uint64(100000 + r.Intn(400000))
 		t.Note = "evm-transfer-to-contract"
+		if r.Intn(4) == 0 { // enough for the governance minimum, not for the EVM's intrinsic gas
+			t.Gas = s.params.MinTrxGas + uint64(r.Intn(50))
+			t.Note = "evm-transfer-to-contract-low-gas"
+		}
 		return t
 	case 3:
 		t := s.baseTx(7, from, c)
